@@ -14,6 +14,7 @@ import ast
 from harness.common import facts as F
 
 R, T, Q, W = 'pyramid/router.py', 'pyramid/threadlocal.py', 'pyramid/request.py', 'pyramid/tweens.py'
+V, U = 'pyramid/view.py', 'pyramid/util.py'
 RC = 'RequestContext'
 
 # order = emission order (callees first)
@@ -29,10 +30,13 @@ FUNCS = [
     (R, 'Router.request_context'),
     (R, 'default_execution_policy'),
     (R, 'Router.invoke_subrequest'),
+    (R, 'Router.handle_request'),
+    (V, 'ViewMethodsMixin.invoke_exception_view'),
     (W, '_error_handler'),
     (W, 'excview_tween_factory.excview_tween'),
 ]
-TRANSLATED_B = ['%s:%s' % k for k in FUNCS]
+INLINED = [(U, 'hide_attrs')]          # generator context manager, translated inline at its `with`
+TRANSLATED_B = ['%s:%s' % k for k in FUNCS + INLINED]
 
 NAMES = {
     (Q, 'CallbackMethodsMixin._process_response_callbacks'): 'gen_process_response_callbacks',
@@ -46,6 +50,8 @@ NAMES = {
     (R, 'Router.request_context'): 'gen_request_context',
     (R, 'default_execution_policy'): 'gen_default_execution_policy',
     (R, 'Router.invoke_subrequest'): 'gen_invoke_subrequest',
+    (R, 'Router.handle_request'): 'gen_handle_request',
+    (V, 'ViewMethodsMixin.invoke_exception_view'): 'gen_invoke_exception_view',
     (W, '_error_handler'): 'gen_error_handler',
     (W, 'excview_tween_factory.excview_tween'): 'gen_excview_tween',
 }
@@ -55,6 +61,7 @@ PARAMS = {
     (R, 'Router.invoke_request'): [('_use_tweens', 'bool', 'tw')],
     (R, 'Router.invoke_subrequest'): [('use_tweens', 'bool', 'tw')],
     (W, '_error_handler'): [('exc', 'val', 'exc')],
+    (V, 'ViewMethodsMixin.invoke_exception_view'): [('exc_info', 'val', 'exc'), ('reraise', 'bool', 'reraise')],
 }
 
 SETUP = ('prim', 'p_setup P')
@@ -110,10 +117,48 @@ PRIM = {
     },
     (W, '_error_handler'): {
         'calls': {'sys.exc_info': ('pure',),
-                  'request.invoke_exception_view': ('prim1', 'p_invoke_exception_view P', 'exc'),
+                  'request.invoke_exception_view': ('proc', (V, 'ViewMethodsMixin.invoke_exception_view')),
                   'reraise': ('raise', 'exc')},
+        # the exc_info triple obtained in the handler stands for the exception being handled (parameter exc)
+        'as_val': {'exc_info': 'exc'},
         'exc_types': {'HTTPNotFound': 'p_is_notfound P'},
     },
+    (R, 'Router.handle_request'): {
+        'truth': {'self.registry.has_listeners': 'p_has_listeners P', "request.__dict__['registry'].has_listeners":
+                  'p_has_listeners P', 'self.routes_mapper is not None': 'p_has_mapper P'},
+        'calls': {"request.__dict__['registry'].notify": ('notify', {'NewRequest': 'p_notify_newrequest P',
+                                                                    'BeforeTraversal': 'p_notify_beforetraversal P',
+                                                                    'ContextFound': 'p_notify_contextfound P'}),
+                  'NewRequest': ('pure',), 'BeforeTraversal': ('pure',), 'ContextFound': ('pure',),
+                  'self.routes_mapper': ('prim', 'p_routes_mapper P'),
+                  'self.root_factory': ('prim', 'p_root_factory P'),
+                  '<p_routes_mapper P>.factory or self.root_factory': ('prim', 'p_route_factory P'),
+                  'traverser': ('prim', 'p_traverser P'),
+                  '_call_view': ('prim', 'p_call_view P'),
+                  "request.__dict__['registry'].adapters.queryAdapter": ('pure',), 'ResourceTreeTraverser': ('pure',),
+                  "request.__dict__['registry'].queryUtility": ('pure',), 'providedBy': ('pure',),
+                  'request.__dict__.update': ('pure',)},
+        # info['route'] is what the mapper's answer is tracked as (None = no route matched)
+        'fields': {('p_routes_mapper P', 'route'): 'same'},
+        'pure_methods': {'join', 'text', 'debug'},
+        'raises': {'HTTPNotFound': 'p_exc_notfound P'},
+    },
+    (V, 'ViewMethodsMixin.invoke_exception_view'): {
+        'calls': {'getattr': ('pure',), 'get_current_registry': ('pure',), 'sys.exc_info': ('pure',),
+                  'providedBy': ('pure',), 'RuntimeError': ('pure',),
+                  'hide_attrs': ('cm-gen', (U, 'hide_attrs')),
+                  'manager.push': ('prim', 'p_push P'), 'manager.pop': ('prim', 'p_pop P'),
+                  '_call_view': ('prim1', 'p_call_exception_view P', 'exc'),
+                  'reraise_': ('raise', 'exc')},
+        'pure_methods': {'get'},
+        # which attributes are hidden while the exception view runs matters (the callback deques must NOT be)
+        'cm_args': {'hide_attrs': ["request", "'response'", "'exc_info'", "'exception'"]},
+        'exc_types': {'Exception': None},
+        'raises': {'HTTPNotFound': 'p_exc_notfound P'},
+        # a request handled by the router always carries its registry (both `registry is None` tests)
+        'assume_false': {'registry is None'},
+    },
+    (U, 'hide_attrs'): {'calls': {}, 'pure_methods': {'pop'}},
     (W, 'excview_tween_factory.excview_tween'): {
         'calls': {'handler': ('prim', 'p_handler P'),
                   '_error_handler': ('proc', (W, '_error_handler'))},
@@ -148,10 +193,20 @@ class Fn:
                 return e.id
             if b[0] == 'alias':
                 return b[1]
+            if b[0] == 'val':
+                return '<%s>' % b[2]            # a tracked call result, named by the leaf it came from
+            if b[0] == 'opaque':
+                return e.id
             return None
         if isinstance(e, ast.Attribute):
             v = self.canon(e.value, env)
             return None if v is None else v + '.' + e.attr
+        if isinstance(e, ast.Subscript) and isinstance(e.slice, ast.Constant):
+            v = self.canon(e.value, env)
+            return None if v is None else '%s[%r]' % (v, e.slice.value)
+        if isinstance(e, ast.BoolOp) and isinstance(e.op, ast.Or):
+            vs = [self.canon(v, env) for v in e.values]
+            return None if any(v is None for v in vs) else ' or '.join(vs)
         if isinstance(e, ast.Compare) and len(e.ops) == 1 and isinstance(e.ops[0], (ast.Is, ast.IsNot)) \
                 and isinstance(e.comparators[0], ast.Constant) and e.comparators[0].value is None:
             v = self.canon(e.left, env)
@@ -162,6 +217,8 @@ class Fn:
         """no call that is not declared pure"""
         for n in ast.walk(e):
             if isinstance(n, ast.Call):
+                if isinstance(n.func, ast.Attribute) and n.func.attr in self.prim.get('pure_methods', ()):
+                    continue
                 c = self.canon(n.func, env)
                 if c is None or self.prim.get('calls', {}).get(c) != ('pure',):
                     return False
@@ -201,9 +258,11 @@ class Fn:
             return '(raise %s)' % b[1]
         if b[0] == 'notify':
             a0 = e.args[0] if e.args else None
-            if not (isinstance(a0, ast.Call) and ast.unparse(a0.func) == b[1]):
-                self.bad(e, 'notify of something else than %s' % b[1])
-            return '(%s)' % b[2]
+            table = b[1] if isinstance(b[1], dict) else {b[1]: b[2]}
+            cls = ast.unparse(a0.func) if isinstance(a0, ast.Call) else None
+            if cls not in table:
+                self.bad(e, 'notify of something else than %s' % sorted(table))
+            return '(%s)' % table[cls]
         if b[0] == 'proc':
             return self.proc_call(b[1], e, env)
         self.bad(e, '%s is a context manager, called directly' % c)
@@ -238,36 +297,35 @@ class Fn:
             else:
                 if isinstance(a, ast.Name) and env.get(a.id, ('',))[0] == 'val':
                     args.append(env[a.id][1])
+                elif isinstance(a, ast.Name) and a.id in self.prim.get('as_val', {}) \
+                        and env.get(a.id, ('',))[0] in ('opaque', 'alias'):
+                    args.append(self.prim['as_val'][a.id])
                 else:
                     self.bad(e, 'argument %s is not a tracked value' % pname)
         return '(%s)' % ' '.join([NAMES[key], 'P'] + args)
 
-    # ---- effectful expression -> M term
-    def effect(self, e, env):
-        if isinstance(e, ast.Call):
-            return self.call(e, env)
-        if isinstance(e, ast.BoolOp) and isinstance(e.op, ast.And) and len(e.values) == 2:
-            t = self.truth(e.values[0], env)
-            rhs = self.effect(e.values[1], env) if not self.is_pure(e.values[1], env) else '(ret 0)'
-            b = self.fresh('b')
-            if t[0] == 'bool':
-                return '(if %s then %s else (ret 0))' % (t[1], rhs)
-            return '(bind %s (fun %s => if truthy %s then %s else ret %s))' % (t[1], b, b, rhs, b)
-        self.bad(e, 'unsupported expression with an effect: %s' % ast.unparse(e))
-
     def truth(self, e, env):
-        """('bool', coq bool) | ('m', M term giving the truth value) | ('not', inner)"""
+        """('bool', coq bool) | ('m', M term giving the truth value) | ('not', inner) | None (unknown)"""
         if isinstance(e, ast.UnaryOp) and isinstance(e.op, ast.Not):
-            return ('not', self.truth(e.operand, env))
+            t = self.truth(e.operand, env)
+            return None if t is None else ('not', t)
         if isinstance(e, ast.Name) and env.get(e.id, ('',))[0] == 'bool':
             return ('bool', env[e.id][1])
+        # `x is None` / `x is not None` on a tracked call result: None is the value 0
+        if isinstance(e, ast.Compare) and len(e.ops) == 1 and isinstance(e.ops[0], (ast.Is, ast.IsNot)) \
+                and isinstance(e.comparators[0], ast.Constant) and e.comparators[0].value is None \
+                and isinstance(e.left, ast.Name) and env.get(e.left.id, ('',))[0] == 'val':
+            t = ('bool', '(N.eqb %s 0)' % env[e.left.id][1])
+            return t if isinstance(e.ops[0], ast.Is) else ('not', t)
         c = self.canon(e, env)
         t = self.prim.get('truth', {}).get(c) if c is not None else None
         if t is None:
-            self.bad(e, 'unknown test %s' % ast.unparse(e))
+            return None
         return ('m', '(%s)' % t)
 
     def cond(self, t, a, b):
+        if a == b:
+            return a
         if t[0] == 'not':
             return self.cond(t[1], b, a)
         if t[0] == 'bool':
@@ -275,16 +333,72 @@ class Fn:
         v = self.fresh('b')
         return '(bind %s (fun %s => if truthy %s then %s else %s))' % (t[1], v, v, a, b)
 
+    def effect(self, e, env):
+        if isinstance(e, ast.Call):
+            return self.call(e, env)
+        if isinstance(e, ast.BoolOp) and isinstance(e.op, ast.And) and len(e.values) == 2:
+            t = self.truth(e.values[0], env)
+            if t is None:
+                self.bad(e, 'unknown test %s' % ast.unparse(e.values[0]))
+            rhs = self.effect(e.values[1], env) if not self.is_pure(e.values[1], env) else '(ret 0)'
+            b = self.fresh('b')
+            if t[0] == 'bool':
+                return '(if %s then %s else (ret 0))' % (t[1], rhs)
+            if t[0] == 'not':
+                self.bad(e, 'negated test in `and`')
+            return '(bind %s (fun %s => if truthy %s then %s else ret %s))' % (t[1], b, b, rhs, b)
+        self.bad(e, 'unsupported expression with an effect: %s' % ast.unparse(e))
+
+    def stmt_pure(self, st, env):
+        """a statement (possibly compound) that makes no call other than declared-pure ones, binds no tracked
+        name, and neither returns, raises nor yields: it leaves the world of the model alone"""
+        for n in ast.walk(st):
+            if isinstance(n, (ast.Return, ast.Raise, ast.Yield, ast.YieldFrom, ast.Try, ast.With, ast.While,
+                              ast.FunctionDef, ast.ClassDef, ast.Lambda, ast.Await, ast.Global, ast.Nonlocal)):
+                return False
+        for n in ast.walk(st):
+            if isinstance(n, ast.expr) and not isinstance(n, (ast.Name, ast.Constant)):
+                pass
+        exprs = [n for n in ast.iter_child_nodes(st)]
+        return all(self.is_pure(n, env) for n in ast.walk(st) if isinstance(n, ast.Call)) and \
+            not any(isinstance(n, ast.Call) and not self.is_pure(n, env) for n in ast.walk(st))
+
+    def assign_pure(self, tg, value, env):
+        """env after the pure assignment  tg = value"""
+        env2 = dict(env)
+        if isinstance(tg, ast.Name):
+            if isinstance(value, ast.Name) and env.get(value.id, ('',))[0] in ('val', 'bool'):
+                env2[tg.id] = env[value.id]
+            elif isinstance(value, ast.Subscript) and isinstance(value.slice, ast.Constant) \
+                    and isinstance(value.value, ast.Name) and env.get(value.value.id, ('',))[0] == 'val' \
+                    and self.prim.get('fields', {}).get((env[value.value.id][2], value.slice.value)) == 'same':
+                env2[tg.id] = env[value.value.id]
+            else:
+                c = self.canon(value, env)
+                env2[tg.id] = ('alias', c) if c is not None and not isinstance(value, ast.Compare) else ('opaque',)
+            return env2
+        if isinstance(tg, (ast.Attribute, ast.Subscript)) and self.is_pure(tg, env):
+            return env2                 # attribute / item glue on the request object
+        self.bad(tg, 'unsupported assignment target')
+
     # ---- statements, continuation passing.  k(env) -> term for "what follows"; tail: what follows is the end
-    # of the function (a `return` is only allowed then)
-    def block(self, stmts, env, k, tail):
+    # of the function (a `return` is only allowed then); after: names read later, outside this block
+    def block(self, stmts, env, k, tail, after=frozenset()):
         if not stmts:
             return k(env)
         st, rest = stmts[0], stmts[1:]
-        nxt = lambda env2: self.block(rest, env2, k, tail)
+        nxt = lambda env2: self.block(rest, env2, k, tail, after)
         tail_here = tail and not rest
+        later = frozenset(self.read(rest)) | after
         if isinstance(st, ast.Pass):
             return nxt(env)
+        if isinstance(st, ast.Expr) and isinstance(st.value, ast.Yield):
+            if getattr(self, 'yield_term', None) is None or st.value.value is not None:
+                self.bad(st, 'unexpected yield')
+            v = self.fresh('yielded')
+            env2 = dict(env)
+            env2['$yield'] = ('val', v, 'yield')
+            return '(bind %s (fun %s => %s))' % (self.yield_term, v, nxt(env2))
         if isinstance(st, ast.Expr):
             if isinstance(st.value, ast.Constant):
                 return nxt(env)
@@ -299,35 +413,62 @@ class Fn:
             if len(st.targets) != 1:
                 self.bad(st, 'chained assignment')
             tg = st.targets[0]
+            if isinstance(tg, ast.Tuple) and isinstance(st.value, ast.Tuple) and len(tg.elts) == len(st.value.elts) \
+                    and self.is_pure(st.value, env):
+                env2 = env
+                for t1, v1 in zip(tg.elts, st.value.elts):
+                    env2 = self.assign_pure(t1, v1, dict(env2, **{}))
+                return nxt(env2)
+            if self.is_pure(st.value, env):
+                return nxt(self.assign_pure(tg, st.value, env))
             if isinstance(tg, ast.Name):
-                if self.is_pure(st.value, env):
-                    c = self.canon(st.value, env)
-                    env2 = dict(env)
-                    if isinstance(st.value, ast.Name) and env.get(st.value.id, ('',))[0] in ('val', 'bool'):
-                        env2[tg.id] = env[st.value.id]
-                    else:
-                        env2[tg.id] = ('alias', c) if c is not None else ('opaque',)
-                    return nxt(env2)
                 v = self.fresh(tg.id)
                 term = self.effect(st.value, env)
                 origin = term.strip('()')
                 env2 = dict(env)
                 env2[tg.id] = ('val', v, origin)
                 return '(bind %s (fun %s => %s))' % (term, v, nxt(env2))
-            if isinstance(tg, (ast.Attribute, ast.Subscript)) and self.is_pure(st.value, env) and self.is_pure(tg, env):
-                return nxt(env)             # attribute glue on the request object
             self.bad(st, 'unsupported assignment target')
         if isinstance(st, ast.Return):
-            if not tail_here:
+            # a return ignores the continuation; that is only right when no enclosing try/with/loop of this
+            # function still has something to run after it (`tail`; if-branches inherit it)
+            if not tail:
                 self.bad(st, 'return that is not in tail position')
             if st.value is None or self.is_pure(st.value, env):
                 return '(ret %s)' % (self.value(st.value, env) if st.value is not None else '0')
             return self.effect(st.value, env)
+        if isinstance(st, ast.Raise):
+            if st.exc is None:
+                cur = env.get('$exc')
+                if cur is None:
+                    self.bad(st, 'bare raise outside a handler')
+                return '(raise %s)' % cur[1]
+            cls = st.exc.func if isinstance(st.exc, ast.Call) else st.exc
+            code = self.prim.get('raises', {}).get(ast.unparse(cls))
+            if code is None or not self.is_pure(st.exc, dict(env, **{})) and not all(
+                    self.is_pure(a, env) for a in getattr(st.exc, 'args', [])):
+                self.bad(st, 'raise of an unknown exception %s' % ast.unparse(cls))
+            return '(raise (%s))' % code
         if isinstance(st, ast.If):
+            c = self.canon(st.test, env)
+            if c is not None and c in self.prim.get('assume_false', ()):
+                return self.block(list(st.orelse) + rest, env, k, tail, after)
             t = self.truth(st.test, env)
-            a = self.block(st.body, env, nxt, tail_here)
-            b = self.block(st.orelse, env, nxt, tail_here)
+            if t is None and not self.is_pure(st.test, env):
+                self.bad(st, 'unknown test %s' % ast.unparse(st.test))
+            n0 = self.n
+            a = self.block(st.body, env, nxt, tail, later)
+            n1, self.n = self.n, n0
+            b = self.block(st.orelse, env, nxt, tail, later)
+            self.n = max(self.n, n1)
+            if t is None:
+                # a test the model does not follow (pure, untracked): both branches must come to the same thing
+                if a != b:
+                    self.bad(st, 'unknown test %s with branches that differ' % ast.unparse(st.test))
+                return a
             return self.cond(t, a, b)
+        if isinstance(st, (ast.For, ast.Delete, ast.AugAssign)) and self.stmt_pure(st, env):
+            return nxt(env)
         if isinstance(st, ast.While):
             if st.orelse:
                 self.bad(st, 'while/else')
@@ -337,16 +478,14 @@ class Fn:
             c = self.canon(st.test, env)
             fuel = self.prim.get('fuel', {}).get(c)
             t = self.truth(st.test, env)
-            if fuel is None or t[0] != 'm':
+            if fuel is None or t is None or t[0] != 'm':
                 self.bad(st, 'loop over something else than a callback deque')
             body = self.block(st.body, env, lambda e2: '(ret 0)', False)
             return '(seq (while_fuelled (%s) %s %s) %s)' % (fuel, t[1], body, nxt(env))
         if isinstance(st, ast.Try):
-            return self.try_(st, rest, env, k, tail, nxt, tail_here)
+            return self.try_(st, rest, env, k, tail, nxt, tail_here, later)
         if isinstance(st, ast.With):
-            return self.with_(st, 0, env, nxt, tail_here)
-        if isinstance(st, ast.Raise):
-            self.bad(st, 'raise statement')
+            return self.with_(st, env, nxt, tail_here, later)
         self.bad(st, 'unsupported statement %s' % type(st).__name__)
 
     @staticmethod
@@ -367,37 +506,62 @@ class Fn:
                     out.add(n.id)
         return out
 
-    def try_(self, st, rest, env, k, tail, nxt, tail_here):
+    def out_var(self, st, stmts, later, has_ret):
+        """the one tracked variable a compound statement hands to what follows"""
+        live = sorted(v for v in self.assigned(stmts) & later)
+        return live
+
+    def try_(self, st, rest, env, k, tail, nxt, tail_here, later):
         if st.orelse:
             self.bad(st, 'try/else')
-        has_ret = any(isinstance(n, ast.Return) for s in st.body + [h for hh in st.handlers for h in hh.body]
-                      for n in ast.walk(s))
+        inner = st.body + [x for h in st.handlers for x in h.body]
+        has_ret = any(isinstance(n, ast.Return) for s in inner for n in ast.walk(s))
         if has_ret and not tail_here:
             self.bad(st, 'return inside a try that is not the last statement')
-        live = sorted((self.assigned(st.body) | self.assigned([x for h in st.handlers for x in h.body]))
-                      & self.read(rest))
-        if len(live) > 1:
-            self.bad(st, 'more than one variable flows out of a try statement')
-        if live and has_ret:
-            self.bad(st, 'try statement both returns and assigns')
-        out = live[0] if live else None
 
-        def kend(e2):
-            if out is None:
-                return '(ret 0)'
-            b = e2.get(out)
-            if b is None or b[0] != 'val':
-                self.bad(st, 'variable %s is not bound on every path out of the try statement' % out)
-            return '(ret %s)' % b[1]
-        body = self.block(st.body, env, kend, tail_here)
+        def kend_for(out):
+            def kend(e2):
+                if out is None:
+                    y = e2.get('$yield')
+                    return '(ret %s)' % (y[1] if y else '0')
+                b = e2.get(out)
+                if b is None or b[0] != 'val':
+                    self.bad(st, 'variable %s is not bound on every path out of the try statement' % out)
+                return '(ret %s)' % b[1]
+            return kend
+        # which variable flows out: one assigned by a CALL inside and read later
+        cand = sorted(self.assigned(inner) & later)
+        out = None
+        body = None
+        for c in [None] + cand:
+            pass
+        # try the candidates that end up tracked
+        n0 = self.n
+        tracked = []
+        for c in cand:
+            try:
+                self.n = n0
+                self.block(st.body, env, kend_for(c), tail_here, later)
+                tracked.append(c)
+            except Problem:
+                pass
+        self.n = n0
+        if len(tracked) > 1:
+            self.bad(st, 'more than one variable flows out of a try statement')
+        if tracked and has_ret:
+            self.bad(st, 'try statement both returns and assigns')
+        out = tracked[0] if tracked else None
+        kend = kend_for(out)
+        body = self.block(st.body, env, kend, tail_here, later)
         if st.handlers:
             ev = self.fresh('e')
             hterm = '(raise %s)' % ev
             for h in reversed(st.handlers):
                 env2 = dict(env)
+                env2['$exc'] = ('val', ev, 'exception')
                 if h.name:
                     env2[h.name] = ('val', ev, 'exception')
-                hb = self.block(h.body, env2, kend, tail_here)
+                hb = self.block(h.body, env2, kend, tail_here, later)
                 if h.type is None:
                     hterm = hb
                     continue
@@ -414,21 +578,31 @@ class Fn:
             for n in ast.walk(ast.Module(body=st.finalbody, type_ignores=[])):
                 if isinstance(n, ast.Return):
                     self.bad(n, 'return inside finally')
-            fin = self.block(st.finalbody, env, lambda e2: '(ret 0)', False)
+            fin = self.block(st.finalbody, {kk: vv for kk, vv in env.items()}, lambda e2: '(ret 0)', False)
             body = '(finally %s %s)' % (body, fin)
         if tail_here:
             if has_ret:
                 return body
-            # falls through to the end of the function: the function's value is None
-            return '(seq %s %s)' % (body, k(env))
+            if out is None and '$yield' not in env and not any(True for _ in ()):
+                return '(seq %s %s)' % (body, k(env))
         if out is None:
+            if self.yields(st):
+                # the try statement of an inlined generator: its value is the value of the `with` body
+                v = self.fresh('yielded')
+                env3 = dict(env)
+                env3['$yield'] = ('val', v, 'yield')
+                return '(bind %s (fun %s => %s))' % (body, v, nxt(env3))
             return '(seq %s %s)' % (body, nxt(env))
         v = self.fresh(out)
         env3 = dict(env)
         env3[out] = ('val', v, 'try')
         return '(bind %s (fun %s => %s))' % (body, v, nxt(env3))
 
-    def with_(self, st, i, env, nxt, tail_here):
+    @staticmethod
+    def yields(st):
+        return any(isinstance(n, (ast.Yield, ast.YieldFrom)) for n in ast.walk(st))
+
+    def with_(self, st, env, nxt, tail_here, later):
         if len(st.items) != 1:
             self.bad(st, 'with over several items')
         item = st.items[0]
@@ -440,22 +614,12 @@ class Fn:
         for a in list(ce.args) + [kw.value for kw in ce.keywords]:
             if not self.is_pure(a, env):
                 self.bad(st, 'context manager argument with an effect')
-        if b is None or b[0] not in ('cm-class', 'cm-proc'):
+        if b is None or b[0] not in ('cm-class', 'cm-proc', 'cm-gen'):
             self.bad(st, 'unknown context manager %s' % ast.unparse(ce.func))
-        if b[0] == 'cm-proc':
-            # a method whose every return is RequestContext(...)
-            pn = self.tr.fn_node(b[1])
-            rets = [n for n in ast.walk(pn) if isinstance(n, ast.Return)]
-            if not rets or not all(isinstance(r.value, ast.Call) and ast.unparse(r.value.func) == RC for r in rets):
-                self.bad(st, 'expected every return of %s to be %s(...)' % (b[1][1], RC))
-            make = '(%s P)' % NAMES[b[1]]
-        else:
-            if c != RC:
-                self.bad(st, 'class based context manager other than %s' % RC)
-            make = '(ret 0)'
-        self.tr.check_rc_class()
+        want = self.prim.get('cm_args', {}).get(c)
+        if want is not None and ([ast.unparse(a) for a in ce.args] != want or ce.keywords):
+            self.bad(st, 'arguments of %s changed: %s' % (c, [ast.unparse(a) for a in ce.args]))
         env2 = dict(env)
-        v = self.fresh('entered')
         if item.optional_vars is not None:
             if not isinstance(item.optional_vars, ast.Name):
                 self.bad(st, 'with ... as <pattern>')
@@ -463,12 +627,55 @@ class Fn:
         has_ret = any(isinstance(n, ast.Return) for s in st.body for n in ast.walk(s))
         if has_ret and not tail_here:
             self.bad(st, 'return inside a with that is not the last statement')
-        body = self.block(st.body, env2, lambda e2: '(ret 0)', tail_here)
-        term = '(seq %s (bind (%s P) (fun %s => finally %s (%s P))))' % (
-            make, NAMES[(T, 'RequestContext.__enter__')], v, body, NAMES[(T, 'RequestContext.__exit__')])
+        # the one tracked variable the body hands to what follows the with statement
+        n0 = self.n
+        tracked = []
+        for cnd in sorted(self.assigned(st.body) & later):
+            def kc(e2, cnd=cnd):
+                bb = e2.get(cnd)
+                if bb is None or bb[0] != 'val':
+                    raise Problem('not tracked')
+                return '(ret %s)' % bb[1]
+            try:
+                self.n = n0
+                self.block(st.body, env2, kc, tail_here, later)
+                tracked.append(cnd)
+            except Problem:
+                pass
+        self.n = n0
+        if len(tracked) > 1 or (tracked and has_ret):
+            self.bad(st, 'more than one value flows out of a with statement')
+        out = tracked[0] if tracked else None
+
+        def kbody(e2):
+            return '(ret %s)' % (e2[out][1] if out else '0')
+        body = self.block(st.body, env2, kbody, tail_here, later)
+        if b[0] == 'cm-gen':
+            term = self.tr.inline_generator(b[1], body)
+        else:
+            if b[0] == 'cm-proc':
+                # a method whose every return is RequestContext(...)
+                pn = self.tr.fn_node(b[1])
+                rets = [n for n in ast.walk(pn) if isinstance(n, ast.Return)]
+                if not rets or not all(isinstance(r.value, ast.Call) and ast.unparse(r.value.func) == RC for r in rets):
+                    self.bad(st, 'expected every return of %s to be %s(...)' % (b[1][1], RC))
+                make = '(%s P)' % NAMES[b[1]]
+            else:
+                if c != RC:
+                    self.bad(st, 'class based context manager other than %s' % RC)
+                make = '(ret 0)'
+            self.tr.check_rc_class()
+            v = self.fresh('entered')
+            term = '(seq %s (bind (%s P) (fun %s => finally %s (%s P))))' % (
+                make, NAMES[(T, 'RequestContext.__enter__')], v, body, NAMES[(T, 'RequestContext.__exit__')])
         if tail_here and has_ret:
             return term
-        return '(seq %s %s)' % (term, nxt(env))
+        if out is None:
+            return '(seq %s %s)' % (term, nxt(env))
+        v = self.fresh(out)
+        env3 = dict(env)
+        env3[out] = ('val', v, 'with')
+        return '(bind %s (fun %s => %s))' % (term, v, nxt(env3))
 
 
 class TranslatorB:
@@ -501,6 +708,29 @@ class TranslatorB:
         if ast.unparse(ast.Module(body=init.body, type_ignores=[])).strip() != 'self.request = request':
             raise Problem('translator(b): RequestContext.__init__ does more than store the request')
         self._rc_checked = True
+
+    def inline_generator(self, key, body_term):
+        """a @contextmanager generator with a single bare `yield`, translated with the with-body in its place;
+        the value of the whole is the value of the with-body"""
+        node = self.fn_node(key)
+        decs = [ast.unparse(d) for d in node.decorator_list]
+        if decs not in (['contextmanager'], ['contextlib.contextmanager']):
+            raise Problem('translator(b): %s:%s is not a plain @contextmanager' % key)
+        ys = [n for n in ast.walk(node) if isinstance(n, (ast.Yield, ast.YieldFrom))]
+        if len(ys) != 1 or not isinstance(ys[0], ast.Yield) or any(isinstance(n, ast.Return) for n in ast.walk(node)):
+            raise Problem('translator(b): %s:%s: expected exactly one yield and no return' % key)
+        fn = Fn(self, key, node)
+        fn.n = 1000
+        fn.yield_term = body_term
+        body = [s for s in node.body if not (isinstance(s, ast.Expr) and isinstance(s.value, ast.Constant)
+                                             and isinstance(s.value.value, str))]
+
+        def kend(e2):
+            y = e2.get('$yield')
+            if y is None:
+                raise Problem('translator(b): %s:%s: an exit path does not pass the yield' % key)
+            return '(ret %s)' % y[1]
+        return fn.block(body, {}, kend, False)
 
     def function(self, key):
         node = self.fn_node(key)
